@@ -34,6 +34,7 @@ type c20Op struct {
 }
 
 type c20Case struct {
+	ViaRPC bool    `json:"via_rpc,omitempty"` // write-control and label requests go through the RPC layer (SourceControl), as a client's do
 	Nchan  int     `json:"nchan"`
 	SubDiv int     `json:"subdiv"`
 	F0     int64   `json:"f0"`
@@ -73,6 +74,7 @@ func c20GenExt(t *rapid.T) []int64 {
 func c20Gen(t *rapid.T) c20Case {
 	c := c20Case{Nchan: rapid.IntRange(1, 3).Draw(t, "nchan"), SubDiv: rapid.SampledFrom([]int{1, 4, 64, 1000}).Draw(t, "subdiv"),
 		F0: rapid.SampledFrom([]int64{0, 1, 123456, 1 << 31, 1 << 40}).Draw(t, "f0")}
+	c.ViaRPC = rapid.Bool().Draw(t, "viarpc")
 	block := func() c20Op {
 		op := c20Op{Kind: "block", Ext: c20GenExt(t)}
 		if rapid.IntRange(0, 2).Draw(t, "hasdrop") == 0 {
@@ -268,7 +270,9 @@ func c20Run(c c20Case) (v vVerdict) {
 	os.MkdirAll(root, 0o755)
 	defer os.RemoveAll(root)
 	vDrainRecords()
-	ds := &AnySource{nchan: c.Nchan, name: "verif"}
+	holder := newScripted(c.Nchan, time.Millisecond, 48) // only its embedded AnySource is used; it makes the source a DataSource for the RPC layer
+	ds := &holder.AnySource
+	ds.name = "verif"
 	ds.sampleRate = 1e6
 	ds.samplePeriod = time.Microsecond
 	ds.subframeDivisions = c.SubDiv
@@ -286,6 +290,34 @@ func c20Run(c c20Case) (v vVerdict) {
 		ds.writingState.dataDropTicker.Stop()
 	}()
 	ds.writingState.BasePath = root
+	sc := NewSourceControl()
+	sc.clientUpdates = clientMessageChan
+	ms := newMapServer()
+	ms.clientUpdates = clientMessageChan
+	sc.mapServer = ms
+	sc.ActiveSource = holder
+	sc.isSourceActive = true
+	ds.sourceState = Active
+	hbStop := make(chan struct{})
+	defer close(hbStop)
+	go func() {
+		for {
+			select {
+			case <-sc.heartbeats:
+			case <-hbStop:
+				return
+			}
+		}
+	}()
+	serveOne := func() { // the core loop's part: take the queued request, if any, and run it
+		go func() {
+			select {
+			case f := <-sc.queuedRequests:
+				f()
+			case <-time.After(500 * time.Millisecond):
+			}
+		}()
+	}
 	openInDir := func(dir string) []string {
 		var out []string
 		ents, _ := os.ReadDir("/proc/self/fd")
@@ -343,7 +375,14 @@ func c20Run(c c20Case) (v vVerdict) {
 			}
 			pos += blockLen
 		case "label":
-			err := ds.SetExperimentStateLabel(time.Now(), op.Label)
+			var err error
+			if c.ViaRPC {
+				serveOne()
+				var ok bool
+				err = sc.SetExperimentStateLabel(&StateLabelConfig{Label: op.Label, WaitForError: true}, &ok)
+			} else {
+				err = ds.SetExperimentStateLabel(time.Now(), op.Label)
+			}
 			if err == nil {
 				if !st.Active || cur == nil || cur.stopped {
 					return vFailf("label-accepted-while-idle", "op %d: state label %q was accepted although writing is not active", i, op.Label)
@@ -353,7 +392,14 @@ func c20Run(c c20Case) (v vVerdict) {
 		case "wc":
 			cfg := &WriteControlConfig{Request: op.Request, WriteLJH22: op.Types&1 != 0, WriteLJH3: op.Types&2 != 0}
 			tReq := time.Now().UnixNano()
-			err := ds.WriteControl(cfg)
+			var err error
+			if c.ViaRPC {
+				serveOne()
+				var ok bool
+				err = sc.WriteControl(cfg, &ok)
+			} else {
+				err = ds.WriteControl(cfg)
+			}
 			after := ds.ComputeWritingState()
 			if err != nil {
 				continue
@@ -391,6 +437,9 @@ func c20Run(c c20Case) (v vVerdict) {
 		}
 	}
 	v.NonTrivial = goodCycles >= 2
+	if c.ViaRPC {
+		v.Classes = append(v.Classes, "requests-through-rpc-layer")
+	}
 	if cycles >= 2 {
 		v.Classes = append(v.Classes, "two-cycles")
 	}
